@@ -5,7 +5,9 @@ package main
 import (
 	"encoding/json"
 	"fmt"
+	"math"
 	"math/rand"
+	"reflect"
 
 	fpgo "github.com/TeaEntityLab/fpGo/v2"
 )
@@ -43,11 +45,35 @@ type SRec struct {
 }
 
 func keyStr(v int) string { return string(rune('a' + v)) }
+
+// wide mode: the abstract key values travel as extreme ints (an order-preserving map), so that a comparison made by
+// subtraction or through a narrower type shows; the output is mapped back before TLC sees it
+var c19Wide bool
+var c19WideVals = []int{math.MinInt64, math.MinInt64 + 1, 7, math.MaxInt64} // keys of the random records are 1..3
+
+func wideOf(v int) int {
+	if c19Wide && v >= 0 && v < len(c19WideVals) {
+		return c19WideVals[v]
+	}
+	return v
+}
+func narrowOf(v int) int {
+	if c19Wide {
+		for i, x := range c19WideVals {
+			if x == v {
+				return i
+			}
+		}
+	}
+	return v
+}
 func mkRec(e [4]int) SRec {
-	return SRec{K1: fpgo.NewComparableOrdered(e[0]), K2: fpgo.NewComparableOrdered(e[1]), K3: fpgo.NewComparableOrdered(e[2]),
+	return SRec{K1: fpgo.NewComparableOrdered(wideOf(e[0])), K2: fpgo.NewComparableOrdered(wideOf(e[1])), K3: fpgo.NewComparableOrdered(wideOf(e[2])),
 		S1: fpgo.NewComparableString(keyStr(e[0])), S2: fpgo.NewComparableString(keyStr(e[1])), S3: fpgo.NewComparableString(keyStr(e[2])), Tag: e[3]}
 }
-func unRec(r SRec) [4]int { return [4]int{r.K1.Val, r.K2.Val, r.K3.Val, r.Tag} }
+func unRec(r SRec) [4]int {
+	return [4]int{narrowOf(r.K1.Val), narrowOf(r.K2.Val), narrowOf(r.K3.Val), r.Tag}
+}
 func recs(in [][4]int) []SRec {
 	r := make([]SRec, len(in), len(in)+2)
 	for i, e := range in {
@@ -186,7 +212,12 @@ func c19Exec(c *c19Case) (l c19Line) {
 	case "Stream.Sort":
 		s := fpgo.StreamFromArray(in)
 		r := s.Sort(c19Less(c.Cmp))
-		l.Out, l.InAfter = unRecs([]SRec(*r)), unRecs([]SRec(*s))
+		// the input "afterwards" is looked at through the caller's slice, which the stream was made from without a copy: Sort works
+		// on a clone, so neither the stream nor anything else over the same records may have moved
+		l.Out, l.InAfter = unRecs([]SRec(*r)), unRecs(in)
+		if !reflect.DeepEqual(unRecs([]SRec(*s)), c.In) {
+			l.InAfter = unRecs([]SRec(*s))
+		}
 	case "Stream.SortByIndex":
 		s := fpgo.StreamFromArray(in)
 		less := c19Less(c.Cmp)
@@ -210,6 +241,12 @@ func c19Exec(c *c19Case) (l c19Line) {
 		}
 		for _, x := range *s {
 			l.InAfter = append(l.InAfter, unRec(x.(SRec)))
+		}
+		if c.Fn == "StreamI.Sort" && reflect.DeepEqual(l.InAfter, c.In) { // as above: through the caller's slice
+			l.InAfter = [][4]int{}
+			for _, x := range ii {
+				l.InAfter = append(l.InAfter, unRec(x.(SRec)))
+			}
 		}
 	case "SortOrdered", "SortOrderedAscending", "SortOrderedDescending":
 		asc := c.Cmp == "valAsc"
@@ -376,7 +413,9 @@ func c19Main(args []string) error {
 					c.Ds = append(c.Ds, c19Desc{Key: keys[perm[j]], Asc: rng.Intn(2) == 0, Via: []string{"functor", "field"}[rng.Intn(2)], Ty: []string{"ordered", "string"}[rng.Intn(2)]})
 				}
 			}
+			c19Wide = k%2 == 1
 			w.write(c19Exec(&c))
+			c19Wide = false
 		}
 		fmt.Printf("{\"events\":%d}\n", n)
 		return nil
